@@ -127,7 +127,9 @@ CLAIMS.update({
          'number of fields incl. 0 and 1) the field vector is indexed in bounds and major/minor are recorded once; '
          'unescape_xml_string / unescape_xml_comment (any length, loop contract): the read position never passes size(), the '
          'loops terminate; real tools/abilint.cc main: a nil translation unit / corpus / group is never dereferenced and yields '
-         'exit status 1.',
+         'exit status 1.  BOUNDED part (symload): symtab::load_(function symbol map, variable symbol map), the loader behind every '
+         'ABIXML corpus, for any two maps of <= 2 names with <= 2 symbols each (a name may be in both): no internal assertion '
+         'fails, it returns true, every non-suppressed symbol is recorded once, every name yields its symbols of both kinds.',
          'Scoped to those functions. The build_* functions of abg-reader.cc, type-id resolution and libxml2 are not decided. '
          'split_string is an assumed callee model in U-version (checked bounded in U-strings).', '5 C33'),
  'C36': ('proof',
